@@ -89,25 +89,24 @@ theorem seg_facts {s : Sys St Op} {t : Nat} {a : Act} {th0 : Th Op} {op : Op} {o
   | resume _ _ _ => exact resume_facts s.subj t op th0.cancelled
 
 theorem parkOK {s : Sys St Op} {t : Nat} {a : Act} {th0 : Th Op} {op : Op} {o : SegOut St}
-    (h : IsSeg subject s t a th0 op o) : ParkOK condOf th0 op o := by
+    (h : IsSeg subject s t a th0 op o) : ParkOK condOf condOf th0 op o := by
   intro c hc
   cases h with
   | start _ _ _ =>
     obtain ⟨rfl, rfl, _, hs, _⟩ := start_park hc
-    refine ⟨rfl, rfl, ?_, ?_⟩
+    refine ⟨rfl, rfl, ?_, Or.inl ?_⟩
     · show Sig.release ∉ (start _ _ _).sigs; rw [hs]; simp
-    · intro _; show Sig.spawn 0 ∈ (start _ _ _).sigs; rw [hs]; simp
+    · show Sig.spawn 0 ∈ (start _ _ _).sigs; rw [hs]; simp
   | resume _ hst _ =>
     obtain ⟨rfl, rfl, hb, _, hs, _⟩ := resume_park hc
-    refine ⟨hb, rfl, ?_, ?_⟩
-    · show Sig.release ∉ (resume _ _ _ _).sigs; rw [hs]; simp
-    · intro hi; rw [hst] at hi; cases hi
+    refine ⟨hb, rfl, ?_, Or.inr ⟨hst, rfl⟩⟩
+    show Sig.release ∉ (resume _ _ _ _).sigs; rw [hs]; simp
 
 /-! ### the invariant -/
 
 structure Inv (s : Sys St Op) : Prop where
   wf : s.WF
-  disc : HelperInv condOf s
+  disc : HelperInv (fun _ => condOf) s
   parked : ∀ (u : Nat) (th : Th Op) (c : Nat), s.ths[u]? = some th → th.st = .parked c → s.subj.counter ≠ 0
   nonneg : 0 ≤ s.subj.counter
 
@@ -120,7 +119,8 @@ theorem inv_init (programs : List (List Op)) : Inv (init programs) := by
 theorem inv_step {s s' : Sys St Op} {a : Act} {obs : String} (h : Inv s) (hen : a ∈ enabled s true)
     (hs : step subject s a = some (s', obs)) : Inv s' := by
   have hwf' := step_wf h.wf hen hs
-  have hdisc' : HelperInv condOf s' := h.disc.step h.wf hen hs (fun _ _ _ _ hseg => parkOK hseg)
+  have hdisc' : HelperInv (fun _ => condOf) s' :=
+    h.disc.step h.wf hen hs (fun _ _ _ _ hseg => parkOK hseg) (fun _ _ _ _ _ => stable_const _ _ _ _)
   have seg : ∀ t, (a = .start t ∨ a = .resume t) → Inv s' := by
     intro t ha
     obtain ⟨th0, op, o, hseg, r⟩ := step_seg h.wf hen hs ha
